@@ -415,7 +415,7 @@ WITNESSES = [
     ("N1 lcc.Thread aborted after Ctrl-C: nothing recorded, test passed", "C02/passed-despite-failure/test/interrupted-in-lcc-thread",
      _p([_s("s0", [_t("t0", [], [_GATE, {"a": "thread", "script": [_LOG]}]), _t("t1", [], [_GATE], rank=2)])]),
      _cfg(2, "fifo", interrupt=["quiescent", 1])),
-    ("N3 --force-disabled: fixture of a suite without tests is evaluated", "C03/unneeded-fixture-evaluated/suite",
+    ("N3 --force-disabled: fixture of a suite without tests is evaluated", "C03/unneeded-fixture-evaluated/suite/force-disabled",
      _p([_s("s0", [_t("t0")]), _s("s1", injected=["f0"], rank=2)], [_f("f0", "suite")], force=True), _cfg(1)),
 ]
 
